@@ -2,6 +2,7 @@ package main
 
 import (
 	"bufio"
+	"os/exec"
 	"encoding/json"
 	"flag"
 	"fmt"
@@ -659,4 +660,267 @@ func (e *Engine) callsTaggedPre(f *ssa.Function, p string) bool {
 		}
 	}
 	return false
+}
+
+// ---------------------------------------------------------------------------
+// C20: zero-annotation safety sweep
+
+func init() {
+	propRunners["C20"] = runSafetySweep
+}
+
+func sweepScope(e *Engine, f *ssa.Function) bool {
+	if f.Synthetic != "" {
+		return false
+	}
+	return true
+}
+
+type sweepBaseline struct {
+	Discharged []string `json:"discharged"`
+	Undecided  []string `json:"undecided"`
+}
+
+func loadSweepBaseline(p string) (*sweepBaseline, map[string]bool, map[string]bool) {
+	b := &sweepBaseline{}
+	data, err := os.ReadFile(filepath.Join(verifDir(), "baseline", p+".json"))
+	if err != nil {
+		return nil, nil, nil
+	}
+	json.Unmarshal(data, b)
+	d, u := map[string]bool{}, map[string]bool{}
+	for _, n := range b.Discharged {
+		d[n] = true
+	}
+	for _, n := range b.Undecided {
+		u[n] = true
+	}
+	return b, d, u
+}
+
+// runSafetySweep: every index, slice, nil, map-write, type-assertion,
+// division and explicit-panic site of every repository function becomes an
+// obligation (no annotations).  /verif/baseline/C20.json records which of them
+// are discharged on the unchanged tree (must stay discharged) and which are
+// undecided there (not part of the claim, retried in the thorough tier).
+func runSafetySweep(e *Engine, res *checkResult, timeout int, two bool, work string, stats *solveStats) {
+	p := res.prop
+	e.curProp = p
+	writeBaseline := os.Getenv("GOVC_WRITE_BASELINE") != ""
+	_, based, baseu := loadSweepBaseline(p)
+	if based == nil && !writeBaseline {
+		res.notes = append(res.notes, "no baseline file: all obligations are attempted")
+	}
+	var obls []*Obligation
+	nf := 0
+	for _, f := range e.allFuncs {
+		if !sweepScope(e, f) {
+			continue
+		}
+		fc := e.contractOf(f)
+		if fc != nil && fc.Trusted {
+			continue
+		}
+		var fts []*FT
+		func() {
+			defer func() {
+				if r := recover(); r != nil {
+					res.notes = append(res.notes, fmt.Sprintf("%s: generator failed: %v", shortFuncName(f), r))
+				}
+			}()
+			fts = e.verifyFuncAll(f, fc, true)
+		}()
+		nf++
+		for i, ft := range fts {
+			if i > 0 {
+				break // one variant is enough for the safety of the function's own code
+			}
+			for _, n := range ft.notes {
+				res.notes = appendUniq(res.notes, shortFuncName(f)+": "+n)
+			}
+			for _, o := range ft.obls {
+				if strings.HasPrefix(o.Kind, "safe/") || (o.Kind == "pre" && hasProp(o.Props, p)) {
+					o.Name = strings.TrimPrefix(o.Name, "["+ft.variant+"]")
+					obls = append(obls, o)
+				}
+			}
+		}
+		res.funcs = append(res.funcs, shortFuncName(f))
+	}
+	st := 2
+	if res.tier == "thorough" || writeBaseline {
+		st = 10
+	}
+	var todo []*Obligation
+	skipped := 0
+	for _, o := range obls {
+		if !writeBaseline && res.tier != "thorough" && baseu[o.Name] {
+			o.Result = "skipped"
+			skipped++
+			continue
+		}
+		todo = append(todo, o)
+	}
+	sweepMode = true
+	discharge(todo, "", st, false, work, stats)
+	sweepMode = false
+	if writeBaseline {
+		b := &sweepBaseline{}
+		for _, o := range obls {
+			if o.Result == "unsat" {
+				b.Discharged = append(b.Discharged, o.Name)
+			} else {
+				b.Undecided = append(b.Undecided, o.Name)
+			}
+		}
+		sort.Strings(b.Discharged)
+		sort.Strings(b.Undecided)
+		os.MkdirAll(filepath.Join(verifDir(), "baseline"), 0755)
+		data, _ := json.MarshalIndent(b, "", " ")
+		os.WriteFile(filepath.Join(verifDir(), "baseline", p+".json"), data, 0644)
+		based, baseu = map[string]bool{}, map[string]bool{}
+		for _, n := range b.Discharged {
+			based[n] = true
+		}
+		for _, n := range b.Undecided {
+			baseu[n] = true
+		}
+	}
+	// classify
+	var claimed []*Obligation
+	newUndecided, newlyDischarged := []string{}, []string{}
+	seen := map[string]bool{}
+	for _, o := range obls {
+		seen[o.Name] = true
+		switch {
+		case o.Result == "skipped":
+		case o.Result == "unsat":
+			claimed = append(claimed, o)
+			if baseu[o.Name] {
+				newlyDischarged = append(newlyDischarged, o.Name)
+			}
+		case based[o.Name]:
+			// was proved on the unchanged tree, fails now
+			claimed = append(claimed, o)
+		default:
+			if !baseu[o.Name] {
+				newUndecided = append(newUndecided, o.Name+" ["+o.Result+" at "+o.Pos+"]")
+			}
+		}
+	}
+	missing := 0
+	for n := range based {
+		if !seen[n] {
+			missing++
+		}
+	}
+	res.obls = append(res.obls, claimed...)
+	res.undecided = newUndecided
+	runBoundedC20(e, res, work)
+	res.extra["functions_swept"] = nf
+	res.extra["sites_total"] = len(obls)
+	res.extra["sites_undecided_in_baseline_not_claimed"] = len(baseu)
+	res.extra["sites_undecided_skipped_this_run"] = skipped
+	res.extra["baseline_obligations_no_longer_generated"] = missing
+	res.extra["undecided_now_discharged"] = newlyDischarged
+	res.extra["level"] = "other"
+	res.extra["explanation"] = "two parts: (1) deductive - every index, slice, nil-dereference, map-write, type-assertion, division and explicit-panic site of every repository function is a zero-annotation obligation; the sites discharged on the unchanged tree (baseline/C20.json) are proved safe for all inputs and must stay discharged, the remaining sites are undecided and not part of the claim; (2) bounded - the property's own finite input family is executed on the real parsers/planners with panics recovered (quick: the first 2 lines of every text, thorough: the first 25); a panic is a confirmed failing input. Termination ('never hang') is not covered."
+}
+
+// runBoundedC20: bounded stand-in and replay engine for C20 - the real parsers
+// and planners are executed on the mutation family described in the property's
+// own quantifier text (see /verif/fuzz/main.go); a runtime panic is a confirmed
+// failing input.
+func runBoundedC20(e *Engine, res *checkResult, work string) {
+	vdir := verifDir()
+	bin := filepath.Join(work, "fuzzrun")
+	env := append(os.Environ(), "GOFLAGS=-mod=mod", "GOPROXY=off", "GOSUMDB=off", "GOTOOLCHAIN=local")
+	// the harness module uses "replace => /repo/go": honour GOVC_REPO through a temp copy of go.mod
+	fdir := filepath.Join(work, "fuzzsrc")
+	os.MkdirAll(fdir, 0755)
+	for _, f := range []string{"main.go"} {
+		data, _ := os.ReadFile(filepath.Join(vdir, "fuzz", f))
+		os.WriteFile(filepath.Join(fdir, f), data, 0644)
+	}
+	gomod, _ := os.ReadFile(filepath.Join(vdir, "fuzz", "go.mod"))
+	os.WriteFile(filepath.Join(fdir, "go.mod"), []byte(strings.ReplaceAll(string(gomod), "/repo/go", repoDir())), 0644)
+	sum, _ := os.ReadFile(filepath.Join(repoDir(), "go.sum"))
+	os.WriteFile(filepath.Join(fdir, "go.sum"), sum, 0644)
+	cmd := exec.Command("go", "build", "-o", bin, ".")
+	cmd.Dir = fdir
+	cmd.Env = env
+	if out, err := cmd.CombinedOutput(); err != nil {
+		res.notes = append(res.notes, "bounded runner did not build: "+string(out))
+		return
+	}
+	maxLines := "2"
+	if res.tier == "thorough" {
+		maxLines = "25"
+	}
+	outFile := filepath.Join(work, "fuzz.json")
+	t0 := time.Now()
+	run := exec.Command(bin, "-maxlines", maxLines, "-testdata", filepath.Join(repoDir(), "testdata"), "-out", outFile)
+	run.Env = env
+	run.CombinedOutput()
+	data, err := os.ReadFile(outFile)
+	if err != nil {
+		res.notes = append(res.notes, "bounded runner produced no result")
+		return
+	}
+	var fr struct {
+		Cases    int `json:"cases"`
+		Runs     int `json:"runs"`
+		Findings []struct {
+			Site, Panic, Model, Device, Netspoc, Raw string
+			Count                                    int
+		} `json:"findings"`
+	}
+	json.Unmarshal(data, &fr)
+	known := loadKnownFindings(filepath.Join(vdir, "known-findings.txt"))
+	sites := []string{}
+	for _, f := range fr.Findings {
+		// identify the site by file + source text (robust against line shifts)
+		file, line := f.Site, 0
+		if i := strings.LastIndex(f.Site, ":"); i > 0 {
+			file = f.Site[:i]
+			line, _ = strconv.Atoi(f.Site[i+1:])
+		}
+		src := ""
+		if l := e.lines(filepath.Join(repoDir(), file)); line-1 < len(l) && line > 0 {
+			src = strings.TrimSpace(l[line-1])
+		}
+		id := "panic@" + file + "::" + src
+		sites = append(sites, id)
+		isKnown := false
+		for _, k := range known {
+			if k.Prop == res.prop && k.Obl == id {
+				isKnown = true
+				if !k.seen {
+					fmt.Printf("KNOWN-FINDING: property=%s %s (%s)\n", res.prop, k.Desc, id)
+					res.known = append(res.known, k.Obl+" :: "+k.Desc)
+				}
+				k.seen = true
+			}
+		}
+		if isKnown {
+			continue
+		}
+		// confirmed violation with failing input
+		os.MkdirAll(filepath.Join(vdir, "replays", res.prop), 0755)
+		rp := filepath.Join(vdir, "replays", res.prop, sanitize(id)+".json")
+		rec := map[string]string{"site": f.Site, "source_line": src, "panic": f.Panic, "model": f.Model, "device": f.Device, "netspoc": f.Netspoc, "raw": f.Raw,
+			"how_to_replay": "/verif/repro/C20_replay.sh " + rp}
+		jd, _ := json.MarshalIndent(rec, "", " ")
+		os.WriteFile(rp, jd, 0644)
+		res.violations = append(res.violations, violation{name: fmt.Sprintf("runtime panic at %s (%s): %s", f.Site, src, f.Panic), replay: rp, confirmed: true})
+	}
+	res.bounded = append(res.bounded, map[string]any{
+		"what":        "real ParseConfig/MergeSpoc/GetChanges of all five device types executed with panics recovered",
+		"bound":       "every DEVICE/NETSPOC/RAW text of go/testdata/*.t; per text the first " + maxLines + " lines mutated: word-prefix truncations, single-token deletion/duplication, adjacent swaps, double blanks, indentation change, line deletion/duplication; JSON/XML structural mutations (null, [], [null], member deletion, element deletion/duplication); empty and garbage files; both argument positions; netspoc text reused as raw file",
+		"cases":       fr.Cases,
+		"executions":  fr.Runs,
+		"panic_sites": sites,
+		"seconds":     round2(time.Since(t0).Seconds()),
+		"label":       "bounded (not counted as proved)",
+	})
 }
